@@ -77,7 +77,25 @@ def guarded(f, ctx, *a):
         raise
 
 
-def error_shape(cfg, path):
+def had_unfaced_fold(st):
+    """Did some player fold without facing a bet (cash games: accepted with a warning)?"""
+    n = st.player_count
+    bets = [0] * n
+    for o in st.operations:
+        nm = type(o).__name__
+        if nm in ('BlindOrStraddlePosting', 'BringInPosting', 'CheckingOrCalling', 'AntePosting'):
+            bets[o.player_index] += o.amount
+        elif nm == 'CompletionBettingOrRaisingTo':
+            bets[o.player_index] = o.amount
+        elif nm == 'BetCollection':
+            bets = [0] * n
+        elif nm == 'Folding':
+            if bets[o.player_index] >= max(bets):
+                return True
+    return False
+
+
+def error_shape(cfg, path, pre=None, ev=None):
     """Abstract shape of the history an exception occurred on (used in finding signatures, so that a
     known defect only matches the kind of input it was found on)."""
     from .configs import autos_of
@@ -92,7 +110,36 @@ def error_shape(cfg, path):
         au = set()
     if ({'HOLE_DEALING', 'BOARD_DEALING'} & au) and 'CARD_BURNING' not in au:
         flags.append('dealing-automated-burning-manual')
+    if pre is not None:
+        unfaced = had_unfaced_fold(pre)
+        if not unfaced and ev is not None and ev[0] == 'fold' and pre.actor_index is not None:
+            a = pre.actor_index
+            unfaced = pre.bets[a] >= max(pre.bets)
+        if unfaced:
+            flags.append('after-unfaced-fold')
     return '+'.join(flags) or 'plain'
+
+
+class ErrorsMonitor:
+    """A menu event (the query said yes) that raises defeats whatever the property promises about it; histories of
+    the shapes covered by the C07 known findings are not judged here."""
+    name = 'errors'
+
+    def __init__(self, prop, ops=None):
+        self.prop = prop
+        self.ops = ops
+
+    def on_error(self, pre, ms, ev, exc, ctx):
+        shape = error_shape(ctx.cfg, list(ctx.path) + [ev], pre, ev)
+        if shape != 'plain':
+            ctx.counters['exceptions_on_known_shapes_not_judged'] += 1
+            return
+        if self.ops and ev[0] not in self.ops:
+            ctx.counters['exceptions_of_other_operations_not_judged'] += 1
+            return
+        sig = exc_signature(exc)
+        ctx.violation('operation-raised', f'{ev} raised {type(exc).__name__}: {exc} at {sig[1]}: {sig[2]}',
+                      path=list(ctx.path) + [ev], sig=(self.prop, 'raised') + sig + (shape,))
 
 
 class Node:
